@@ -297,7 +297,7 @@ fn check_transaction(h: &[usize]) -> Option<Fail> {
 fn build(tier: Tier) -> Vec<Scenario> {
     let mut out = vec![];
     let (len1, len2, tmax) = match tier {
-        Tier::Quick => (5usize, 4usize, 5i64),
+        Tier::Quick => (6usize, 5usize, 4i64),
         Tier::Thorough => (6, 5, 6),
     };
     for size in 1..=4i64 {
